@@ -72,9 +72,29 @@ def classify(obs, mn, err):
         if err.startswith('NameError') and kinds.get(m.group(1)) == 'typeDecl' and len(bases) == 1 and kinds.get(bases[0]) == 'textualConvention':
             return 'type-derived-from-tc'
         if err.startswith('TypeError') and 'MRO' in err and bases[0] == 'TextualConvention' and len(bases) == 2 \
-                and (kinds.get(bases[1]) == 'textualConvention' or bases[1] == 'DisplayString'):
+                and tc_based(obs['gen'].truth, mn, bases[1]):
             return 'tc-derived-from-tc'
     return 'pysnmp-exec'
+
+
+def tc_based(truth, mn, name, depth=0):
+    """is the Python class of type `name` (as seen from module mn) a subclass of TextualConvention: a textual convention
+    itself, DisplayString, or a plain type based - through any number of plain types - on one of those"""
+    if name == 'DisplayString':
+        return True
+    if depth > 50:
+        return False
+    cands = [(m2, t) for (m2, n), t in truth.items() if mibgen.jname(n) == name and t.get('kind') in ('typeDecl', 'textualConvention')]
+    cands.sort(key=lambda c: c[0] != mn)        # the module's own type of that name wins
+    if not cands:
+        return False
+    m2, t = cands[0]
+    if t['kind'] == 'textualConvention':
+        return True
+    syn = t.get('syntax') or {}
+    if syn.get('user') or syn.get('base') == 'DisplayString':
+        return tc_based(truth, syn.get('tmodule') or m2, mibgen.jname(syn['base']), depth + 1)
+    return False
 
 
 def spec_items(cls):
